@@ -263,7 +263,10 @@ def one_cooler(ctx, cid, rng, idx):
     symm = bool(rng.random() < 0.6)
     P = gen.gen_pixels(rng, n, symm, ["sparse30", "dense", "sparse05", "sparse70", "emptyrows"][int(rng.integers(5))])
     E = {k: float(int(rng.integers(-40, 40))) / 4 for k in P}
-    bex = {"gc": np.round(rng.random(n), 4), "cov": rng.integers(0, 1000, size=n)} if rng.random() < 0.6 else None
+    # extra bin columns; their names may contain a standard column's name as a substring (F29)
+    xn = [("gc", "cov"), ("chrom_gc", "subchrom_rank"), ("start0", "chromEnd")][int(rng.integers(3))]
+    bex = {xn[0]: np.round(rng.random(n), 4), xn[1]: rng.integers(0, max(1, len(bt)), size=n)
+           if xn[1] != "cov" else rng.integers(0, 1000, size=n)} if rng.random() < 0.6 else None
     path = ctx.path()
     group = "/" if idx % 3 else "/deep/er/grp"
     uri = path + ("::" + group if group != "/" else "")
